@@ -17,7 +17,51 @@ def c03(tier, rep):
     E.traces(rep, E.record_all(std_sources(tier, 300, 3000)), "corpus+gen+noisy")
 
 
+def _rows(rep, max_len, alpha, indent, tag, own_fields):
+    import linelevel as LL
+    rs, bad, res = LL.rows(max_len, alpha, indent, tag=tag)
+    rep.add_tlc(f"MC_Cells[{tag},len<={max_len}]", res, f"{len(rs)} rows: machine = operational = declarative, round trip, read-back; replayed on GherkinLine.table_cells and Parser.parse")
+    rep.traces += len(rs)
+    for r in rs:
+        rep.case(tuple(r["line"]), nontrivial=len(r["cells"]) > 0)
+    rep.sample({"row": "".join(map(chr, rs[len(rs) // 2]["line"])), "cells": [[c["col"], "".join(map(chr, c["text"]))] for c in rs[len(rs) // 2]["cells"]]})
+    for inv in sorted(set(res.invariant_violations)):
+        rep.violation({"kind": "spec-invariant", "invariant": inv}, {"engine": "MC_Cells", "what": f"{inv} violated", "tlc_tail": res.out[-3000:]})
+    for b in bad:
+        if b["field"] in own_fields:
+            rep.violation({"kind": "row:" + b["field"]}, {"engine": "rows", "what": "table_cells differs from the declarative cells", **b})
+
+
+def _tags(rep, max_len, alpha, indent, tag):
+    import linelevel as LL
+    ls, bad, res = LL.tags(max_len, alpha, indent, tag=tag)
+    rep.add_tlc(f"MC_Tags[{tag},len<={max_len}]", res, f"{len(ls)} tag lines: read-back, fault column; replayed on GherkinLine.tags and Parser.parse")
+    rep.traces += len(ls)
+    for r in ls:
+        rep.case(tuple(r["line"]), nontrivial=len(r["items"]) > 0 or not r["ok"])
+    rep.sample({"tag_line": "".join(map(chr, ls[len(ls) // 2]["line"])), "ok": ls[len(ls) // 2]["ok"], "items": [[c["col"], "".join(map(chr, c["text"]))] for c in ls[len(ls) // 2]["items"]]})
+    for inv in sorted(set(res.invariant_violations)):
+        rep.violation({"kind": "spec-invariant", "invariant": inv}, {"engine": "MC_Tags", "what": f"{inv} violated", "tlc_tail": res.out[-3000:]})
+    for b in bad:
+        rep.violation({"kind": b["cause"]}, {"engine": "tags", "what": "GherkinLine.tags differs from the specification", **b})
+
+
+def c12(tier, rep):
+    rep.extra["rule"] = ("every row over {pipe, backslash, 'n', blank, other} up to the length bound (distinct rows; non-trivial = at least one cell); "
+                         "blank as space and tab, other as ASCII and non-BMP; plus tables in corpus/generated/noisy documents")
+    _rows(rep, 6 if tier == "quick" else 8, (124, 92, 110, 32, 120), (32, 32), "ascii", ("count", "text", "col", "ast", "exception"))
+    _rows(rep, 5 if tier == "quick" else 7, (124, 92, 110, 9, 128512), (9,), "tab_nonbmp", ("count", "text", "col", "ast", "exception"))
+    E.menu(rep, M.TABLES, 4 if tier == "quick" else 5, max_errs=3, invariants=["Inv_C12"], label="tables")
+    E.traces(rep, E.record_all(std_sources(tier, 300, 3000)), "corpus+gen+noisy")
+
+
 def c04(tier, rep):
+    rep.extra["rule"] = ("rows and tag lines over their character classes up to a length bound, ASCII/tab/non-BMP representatives; every "
+                         "sequence of menu lines; corpus + generated + noisy documents with the read-back predicate evaluated on the implementation's AST and errors")
+    _rows(rep, 6 if tier == "quick" else 8, (124, 92, 110, 32, 120), (32, 32), "ascii", ("col", "ast", "count"))
+    _rows(rep, 5 if tier == "quick" else 7, (124, 92, 110, 9, 128512), (9, 32), "tab_nonbmp", ("col", "ast", "count"))
+    _tags(rep, 6 if tier == "quick" else 7, (64, 32, 35, 120, 9), (32,), "ascii")
+    _tags(rep, 5 if tier == "quick" else 6, (64, 12288, 35, 128512), (9, 9), "wide")
     E.menu(rep, M.BASE, 3 if tier == "quick" else 4, invariants=["Inv_C04"], label="base")
     E.traces(rep, E.record_all(std_sources(tier, 300, 3000)), "corpus+gen+noisy")
 
@@ -130,7 +174,44 @@ def c02(tier, rep):
     E.traces(rep, E.record_all(std_sources(tier, 200, 2000)), "corpus+gen+noisy")
 
 
-CHECKS = {"C02": c02, "C01": c01, "C03": c03, "C04": c04, "C14": c14, "C18": c18}
+def c05(tier, rep):
+    import keywords as K, os, json
+    from common import Scratch, run_tlc, write_dialects, MachineryError, REPO
+    rep.extra["rule"] = ("complete: every dialect x role x listed keyword (1749 keyword instances) matched in every dialect on the specification "
+                         "(MC_Keywords, 139,920 cases); every one of them as a real document, as default dialect and via header, validated against the spec; "
+                         "header spellings from the pattern; foreign keywords; shipped table = master table")
+    rep.extra["exhaustive"] = True
+    # the language table shipped with the package is the master table
+    a = open(os.path.join(REPO, "gherkin-languages.json"), "rb").read()
+    b = open(os.path.join(REPO, "python", "gherkin", "gherkin-languages.json"), "rb").read()
+    rep.case("shipped-table")
+    if a != b:
+        same = json.loads(a) == json.loads(b)
+        rep.violation({"kind": "shipped-table"}, {"engine": "files", "what": "python/gherkin/gherkin-languages.json differs from /repo/gherkin-languages.json", "json_equal": same})
+    from gherkin.dialect import DIALECTS
+    if DIALECTS != json.loads(a):
+        rep.violation({"kind": "loaded-table"}, {"engine": "files", "what": "gherkin.dialect.DIALECTS differs from the master table"})
+    # the matcher of the specification against the whole table
+    with Scratch("kw") as sc:
+        write_dialects(sc)
+        src = open(sc.path("MC_Keywords.tla")).read().replace("=" * 77, "ForeignSet == DOMAIN Dialects\n" + "=" * 77)
+        sc.write("MC_Keywords.tla", src)
+        sc.write("MC_Keywords.cfg", "SPECIFICATION Spec\nCONSTANT Foreign <- ForeignSet\nINVARIANT Inv_Complete\nINVARIANT Inv_Sound\nINVARIANT Inv_Types\nCHECK_DEADLOCK FALSE\n")
+        res = run_tlc(sc, "MC_Keywords", timeout=1200, extra=["-continue"])
+    if not res.finished:
+        raise MachineryError("MC_Keywords did not finish\n" + res.out[-2000:])
+    rep.add_tlc("MC_Keywords", res, "every listed keyword of every dialect matched in every dialect: Inv_Complete, Inv_Sound, Inv_Types")
+    for inv in sorted(set(res.invariant_violations)):
+        rep.violation({"kind": "spec-invariant", "invariant": inv}, {"engine": "MC_Keywords", "what": f"{inv} violated", "tlc_tail": res.out[-3000:]})
+    # every keyword as a document through the real parser
+    cases = K.all_cases(1 if tier == "quick" else 4) + K.foreign_cases(SEED, 300 if tier == "quick" else 3000) + K.header_cases(SEED, 400 if tier == "quick" else None)
+    E.traces(rep, E.record_all(cases, listing=True), "keywords+foreign+headers", batch=2500)
+    E.menu(rep, M.DIALECT, 4 if tier == "quick" else 5, invariants=["Inv_C05"], label="dialect")
+    if tier == "thorough":
+        E.traces(rep, E.record_all(E.src_generated(2000, SEED, sorted(json.loads(a)))), "generated-multidialect")
+
+
+CHECKS = {"C02": c02, "C05": c05, "C12": c12, "C01": c01, "C03": c03, "C04": c04, "C14": c14, "C18": c18}
 
 
 def replay(prop: str, path: str) -> int:
